@@ -258,7 +258,17 @@ fn ckks_case(cfg: &Cfg, grp: &str, case: u64, rng: &mut Rng, rep: &mut Report, l
             let mut at_level: Vec<Option<Ciphertext>> = vec![Some(ct.clone())];
             for i in 0..nl - 1 {
                 let prev = at_level[i].clone();
-                let next = prev.and_then(|p| lib(|| if mode == "rescale" { kit.eval.rescale_to_next_new(&p) } else { kit.eval.mod_switch_to_next_new(&p) }).ok());
+                let next = prev.and_then(|p| match lib(|| if mode == "rescale" { kit.eval.rescale_to_next_new(&p) } else { kit.eval.mod_switch_to_next_new(&p) }) {
+                    Ok(c) => Some(c),
+                    Err(e) => {
+                        // a refusal is legitimate only when the resulting scale does not fit the next level; any other panic of a
+                        // one-level step on a valid ciphertext is a violation (it used to be taken for a refusal, silently)
+                        let new_scale = if mode == "rescale" { p.scale() / *kit.level_qs(i).last().unwrap() as f64 } else { p.scale() };
+                        let fits = new_scale > 0.0 && (new_scale.log2().floor() as isize) < kit.levels[i + 1].total_coeff_modulus_bit_count() as isize;
+                        if fits { viol(&o, rep, &format!("{}_to_next_new", mode), &format!("CKKS|size={}|down", size), "panic", format!("one-level {} {}->{} of a valid ciphertext whose resulting scale fits panicked: {}", mode, i, i + 1, e.0)); }
+                        None
+                    }
+                });
                 at_level.push(next);
             }
             for src in 0..nl { for tgt in 0..nl {
